@@ -282,7 +282,10 @@ class ParseContext(ParserEngine):
         try:
             return exp(self)
         except TypeError as e:
-            if "arguments" in str(e):
+            # only a failure to bind the arguments of exp itself (raised by the
+            # call, not from within exp) selects the other calling convention
+            tb = e.__traceback__
+            if tb is not None and tb.tb_next is None and "arguments" in str(e):
                 return boundcall(exp, {}, self)
             raise
 
